@@ -311,9 +311,13 @@ func buildJSONWriter(p *Program, o *JSONObject) {
 					return true
 				}
 				if sel, ok := call.Fun.(*ast.SelectorExpr); ok && sel.Sel.Name == "marshalJSONInnerBody" && len(call.Args) == 1 {
+					arg0 := ast.Unparen(call.Args[0])
+					if u, isU := arg0.(*ast.UnaryExpr); isU && u.Op == token.AND {
+						arg0 = u.X // &cw of a commaWriter value
+					}
 					if identObj(info, call.Args[0]) == out {
 						isEmb = true
-					} else if cw := identObj(info, call.Args[0]); cw != nil && isCommaWriterOf(p, body, cw, out, commaObj) {
+					} else if cw := identObj(info, arg0); cw != nil && isCommaWriterOf(p, body, cw, out, commaObj) {
 						isEmb = true
 						row.ViaCommaWriter = true
 						row.AdvancesIfWritten = advancesIfWritten(info, body, cw, commaObj)
@@ -648,13 +652,24 @@ func buildJSONReader(p *Program, o *JSONObject) {
 		case *ast.IfStmt:
 			// additional: if len(m) > 0 { c.AP = make(...) } followed by for k, bs := range m { … }
 			if s.Init == nil {
-				if be, ok := s.Cond.(*ast.BinaryExpr); ok && be.Op == token.GTR && types.ExprString(be.X) == "len("+m.Name()+")" && i+1 < len(list) {
-					if rs, ok := list[i+1].(*ast.RangeStmt); ok && c.isObj(rs.X, m) {
+				if be, ok := s.Cond.(*ast.BinaryExpr); ok && be.Op == token.GTR && types.ExprString(be.X) == "len("+m.Name()+")" {
+					// the collector loop follows the make-guard or stands inside it (after the make)
+					var rs *ast.RangeStmt
+					inside := false
+					if len(s.Body.List) == 2 {
+						if r2, ok := s.Body.List[1].(*ast.RangeStmt); ok && c.isObj(r2.X, m) {
+							rs, inside = r2, true
+						}
+					}
+					if rs == nil && len(s.Body.List) == 1 && i+1 < len(list) {
+						if r2, ok := list[i+1].(*ast.RangeStmt); ok && c.isObj(r2.X, m) {
+							rs = r2
+						}
+					}
+					if rs != nil {
 						row := JSONReadRow{Kind: "additional", Pos: s.Pos()}
-						if len(s.Body.List) == 1 {
-							if as, ok := s.Body.List[0].(*ast.AssignStmt); ok {
-								row.Field = outerField(as.Lhs[0])
-							}
+						if as, ok := s.Body.List[0].(*ast.AssignStmt); ok {
+							row.Field = outerField(as.Lhs[0])
 						}
 						// error discipline inside the loop
 						okErr := true
@@ -694,7 +709,9 @@ func buildJSONReader(p *Program, o *JSONObject) {
 							und("additionalProperties map is not made on the receiver")
 						}
 						o.Reader = append(o.Reader, row)
-						i++
+						if !inside {
+							i++
+						}
 						continue
 					}
 				}
@@ -1021,6 +1038,41 @@ func isCommaWriterOf(p *Program, body *ast.BlockStmt, cw, out, comma types.Objec
 		if okW && okC {
 			ok = true
 			cwName = cwType.Obj().Name()
+		}
+	}
+	if !ok {
+		// `var cw T` followed by `cw.<f> = out` and `cw.<g> = comma` (each field once)
+		var cwType *types.Named
+		okW, okC, other := false, false, false
+		for _, st := range body.List {
+			switch x := st.(type) {
+			case *ast.DeclStmt:
+				if gd, isGd := x.Decl.(*ast.GenDecl); isGd && gd.Tok == token.VAR && len(gd.Specs) == 1 {
+					vs := gd.Specs[0].(*ast.ValueSpec)
+					if len(vs.Names) == 1 && info.Defs[vs.Names[0]] == cw && len(vs.Values) == 0 {
+						cwType, _ = types.Unalias(cw.Type()).(*types.Named)
+					}
+				}
+			case *ast.AssignStmt:
+				if len(x.Lhs) != 1 || len(x.Rhs) != 1 {
+					continue
+				}
+				sel, isSel := x.Lhs[0].(*ast.SelectorExpr)
+				if !isSel || identObj(info, sel.X) != cw {
+					continue
+				}
+				switch v := identObj(info, x.Rhs[0]); {
+				case v == out && !okW:
+					okW = true
+				case v == comma && comma != nil && !okC:
+					okC = true
+				default:
+					other = true
+				}
+			}
+		}
+		if cwType != nil && cwType.Obj().Pkg() == p.Pkg.Types && okW && okC && !other {
+			ok, cwName = true, cwType.Obj().Name()
 		}
 	}
 	return ok && cwName != "" && commaWriterShape(p, cwName) == ""
